@@ -319,6 +319,18 @@ func runS(c SCase) error {
 	if r, e := by.NewProxy(&msg.NewProxy{ProxyName: "by-tcp", ProxyType: "tcp", RemotePort: blk.Port(fx.SlotAllow)}, 5*time.Second); e != nil || r.Error != "" {
 		return fx.Inconclusive("bystander registration: %v %+v", e, r)
 	}
+	hbStop := make(chan struct{})
+	defer close(hbStop)
+	go func() { // the scripted bystander sends its own heartbeats (see churn_test.go)
+		for {
+			select {
+			case <-hbStop:
+				return
+			case <-time.After(8 * time.Second):
+				_, _ = by.Ping(&msg.Ping{}, 4*time.Second)
+			}
+		}
+	}()
 	_, _ = by.NewProxy(&msg.NewProxy{ProxyName: "by-xtcp", ProxyType: "xtcp", Sk: "k", AllowUsers: []string{"*"}}, 5*time.Second)
 	_, _ = by.NewProxy(&msg.NewProxy{ProxyName: "by-stcp", ProxyType: "stcp", Sk: "k", AllowUsers: []string{"*"}}, 5*time.Second)
 
@@ -543,6 +555,7 @@ func runCC(c CCase) error {
 						cn.Close()
 						return
 					}
+					var wmu sync.Mutex // the encrypted stream has one writer at a time
 					go func() {
 						// answer registrations and pings like a normal server
 						for {
@@ -552,19 +565,27 @@ func runCC(c CCase) error {
 							}
 							switch v := m.(type) {
 							case *msg.NewProxy:
+								wmu.Lock()
 								_ = msg.WriteMsg(rw, &msg.NewProxyResp{ProxyName: v.ProxyName, RemoteAddr: ":1"})
+								wmu.Unlock()
 							case *msg.Ping:
+								wmu.Lock()
 								_ = msg.WriteMsg(rw, &msg.Pong{})
+								wmu.Unlock()
 							}
 						}
 					}()
 					if first {
 						time.Sleep(50 * time.Millisecond)
 						for _, hm := range c.Msgs {
+							wmu.Lock()
 							_, _ = rw.Write(frameOf(hm))
+							wmu.Unlock()
 						}
 						for i := 0; i < c.Flood; i++ {
+							wmu.Lock()
 							_, _ = rw.Write(frameOf(HMsg{Type: 'r', Body: "{}"}))
+							wmu.Unlock()
 						}
 						mu.Lock()
 						hostileDone = true
